@@ -84,6 +84,14 @@ def run_shard(k, n):
                 except Exception:
                     pass
     demos = sorted(d for d in os.listdir(os.path.join(VERIF, 'seeded')) if os.path.exists(os.path.join(VERIF, 'seeded', d, 'demo.py')))
+    demo_files = {}
+    for d in demos:
+        try:
+            txt = open(os.path.join(VERIF, 'seeded', d, 'patch.diff'), errors='replace').read()
+        except OSError:
+            txt = ''
+        demo_files[d] = {l.split(' b/')[-1].strip() for l in txt.split('\n') if l.startswith('diff --git')}
+    fast = os.environ.get('TRIAGE_FAST') == '1'
     with open(outp, 'a') as out:
         for j, job in enumerate(jobs):
             if j % n != k or tuple(job[:3]) in done:
@@ -144,7 +152,8 @@ def run_shard(k, n):
                 fx = subprocess.run(['/venv/bin/python', os.path.join(VERIF, 'tools', 'run_fixtures.py'), wt, wt + '/fx.json'], capture_output=True, text=True, timeout=600)
                 rec['fixtures'] = (fx.stdout.strip().split('\n') or [''])[-1][:60]
                 bad = []
-                for d in (demos if not killed else []):      # the demos are only needed to find what the rules miss
+                pick = [] if os.environ.get('TRIAGE_FAST') == '2' else [d for d in demos if not fast or rel in demo_files.get(d, ())]      # fast mode: only the demos whose seeded change touches the same file
+                for d in (pick if not killed else []):      # the demos are only needed to find what the rules miss
                     try:
                         q = subprocess.run(['/venv/bin/python', os.path.join(VERIF, 'seeded', d, 'demo.py')], env=env, cwd=wt, capture_output=True, timeout=60)
                         if q.returncode != 0:
